@@ -15,7 +15,8 @@ let action_of_string s =
   | ["SB"; sid] -> M.SyncBegin (nat_of_int (int_of_string sid))
   | ["SE"; sid] -> M.SyncEnd (nat_of_int (int_of_string sid))
   | ["BR"; sid] -> M.StreamBreak (nat_of_int (int_of_string sid))
-  | ["SN"; sid; t; c] -> M.SnapshotInstall (nat_of_int (int_of_string sid), z t, z c)
+  | ["SN"; sid; t; c] -> M.SnapshotInstall (nat_of_int (int_of_string sid), z t, z c, M.O)
+  | ["SN"; sid; t; c; f] -> M.SnapshotInstall (nat_of_int (int_of_string sid), z t, z c, nat_of_int (int_of_string f))
   | ["CR"; k] -> M.CrashRestart (nat_of_int (int_of_string k))
   | ["BL"; t] -> M.BecomeLeaderReq (z t)
   | ["CW"; p] -> M.ClientWrite (z p)
@@ -24,7 +25,7 @@ let action_of_string s =
 let string_of_err = function
   | M.EInvalidTerm -> "term" | M.EInvalidStatus -> "status" | M.EAlreadyConnected -> "connected"
   | M.EInvalidNextOffset -> "nextoffset" | M.EOutOfBounds -> "bounds" | M.ENotLeader -> "notleader"
-  | M.ENotFound -> "notfound" | M.EWalRead -> "walread" | M.EClosed -> "closed" | M.ENoSuchStream -> "nostream"
+  | M.ENotFound -> "notfound" | M.EWalRead -> "walread" | M.EClosed -> "closed" | M.ENoSuchStream -> "nostream" | M.EStream -> "stream"
 let string_of_result = function
   | M.ROk -> "ok"
   | M.RHead (t, o) -> "head:" ^ sz t ^ ":" ^ sz o
@@ -61,5 +62,6 @@ let () = read_lines (fun line ->
      | M.TNoTrunc (t, o) -> Printf.printf "%s none:%s:%s\n" id (sz t) (sz o)
      | M.TInvalid -> Printf.printf "%s invalid\n" id
      | M.TTrunc (t, o) -> Printf.printf "%s trunc:%s:%s\n" id (sz t) (sz o))
+  | "spec" :: id :: _ -> Printf.printf "%s spec-only\n" id   (* scenarios judged by the specification monitors alone *)
   | [] | [""] -> ()
   | _ -> Printf.printf "?? bad line: %s\n" line)
